@@ -271,7 +271,7 @@ func genStepLimit(t *kit.Tape, w *world, minLimit, comfortable int64, bal, value
 func genTransfer(t *kit.Tape, w *world, s *txSpec) {
 	cfg := w.cfg
 	s.from = t.Choose("from", len(cfg.eoas))
-	tok := t.Weighted("tok", 6, 2, 1, 1)
+	tok := t.Weighted("tok", 6, 2, 1, 1, 1)
 	toEOA := (s.from + 1 + t.Choose("toeoa", len(cfg.eoas)-1)) % len(cfg.eoas)
 	toFresh := cfg.fresh[t.Choose("tofresh", len(cfg.fresh))]
 	switch tok {
@@ -281,6 +281,10 @@ func genTransfer(t *kit.Tape, w *world, s *txSpec) {
 		s.to, s.toName = toFresh.addr, toFresh.name
 	case 2:
 		s.to, s.toName = cfg.eoas[s.from].addr, cfg.eoas[s.from].name
+	case 4:
+		// the account the block's fees are credited to is an ordinary account too: a transfer to it must
+		// arrive on top of the fees
+		s.to, s.toName = treasuryAddr, "treasury"
 	default:
 		s.to, s.toName = scoreAddr, "score" // plain transfer to a contract without a payable fallback
 	}
@@ -364,6 +368,15 @@ func genScore(t *kit.Tape, w *world, s *txSpec, isolated bool, prop string) {
 		s.value = big.NewInt(vals)
 	default:
 		s.value = new(big.Int).Add(cfg.balances[s.from], big.NewInt(1))
+	}
+	// last operation of some programs: debit the caller down to `keep` units (0, too little for any fee,
+	// or plenty): a successful execution that may leave the payer unable to pay for it
+	drain := t.Permille("sdrain", 150)
+	keepk := t.Weighted("sdrain.keep", 2, 3, 2)
+	keepSmall := int64(1 + t.Choose("sdrain.small", 60))
+	if drain {
+		keep := []int64{0, keepSmall, 1 << 40}[keepk]
+		s.prog = append(s.prog, scoreOp{op: 'd', val: keep})
 	}
 	data := map[string]any{"method": "wld", "params": map[string]any{"p": encodeProg(s.prog, s.end)}}
 	minLimit := cfg.steps.costDefault + cfg.steps.costInput*dataLen(data)
